@@ -197,7 +197,7 @@ def sed_case(draw, variable=False):
     aps = draw(gen.increasing(nap, 1., 1e6, 1.05))
     wav = draw(gen.increasing(nw, 0.1, 1000., 1.05))
     c = {'apertures': aps, 'wav': wav, 'flux': [[draw(gen.logfloat(1e-3, 1e3)) for _ in range(nw)] for _ in range(nap)],
-         'table_unit': draw(st.sampled_from(['au', 'au', 'pc', 'cm'])), 'as_quantity': draw(st.booleans()),
+         'table_unit': draw(st.sampled_from(['au', 'au', 'pc', 'cm'])), 'as_quantity': draw(st.booleans()), 'sed_request_unit': draw(st.sampled_from(['au', 'au', 'pc', 'cm'])),
          'sed_order': draw(st.sampled_from(['asc', 'desc'])), 'ap_store': draw(st.sampled_from(['asc', 'asc', 'desc', 'rot']))}
     if variable:
         nf = draw(st.integers(2, min(6, nw)))
@@ -239,8 +239,11 @@ def run_sed(case, ctx):
         s, idx = make_sed(case)
     reqs = case['requests']
     arg = np.array(reqs, dtype=float)
+    ru = case.get('sed_request_unit', 'au') if case['as_quantity'] else 'au'
     if case['as_quantity']:
-        arg = arg * u.au
+        # a Quantity request may be in any length unit
+        arg = np.array([r * UFAC[ru] for r in reqs]) * U(ru)
+        labels.add('quantity_request_in_' + ru)
     below = [r for r in reqs if r < aps[0]] if nap > 1 else []
     if below:
         labels.add('request_below')
@@ -249,18 +252,18 @@ def run_sed(case, ctx):
         except Exception:  # noqa
             return labels, nap >= 2
         fail('SED.interpolate did not refuse %r AU below the smallest aperture %r AU' % (min(below), aps[0]), 'c13:below_not_refused')
-    if case['table_unit'] != 'au' and nap > 1 and aps[0] in reqs:
+    if (case['table_unit'] != 'au' or ru != 'au') and nap > 1 and aps[0] in reqs:
         try:
             out = s.interpolate(arg)
         except Exception:  # noqa: the smallest knot stored in another unit may round above the request
             return labels | {'smallest_knot_other_unit_refused'}, False
     else:
-        with must_succeed('SED.interpolate(%s)' % ('Quantity in AU' if case['as_quantity'] else 'bare AU numbers')):
+        with must_succeed('SED.interpolate(%s)' % ('Quantity in %s' % ru if case['as_quantity'] else 'bare AU numbers')):
             out = s.interpolate(arg)
     out = np.asarray(getattr(out, 'value', out), dtype=float)
     if out.shape != (nw, len(reqs)):
         fail('SED.interpolate returned shape %r for %d wavelengths x %d requests' % (out.shape, nw, len(reqs)), 'c13:shape')
-    rtol = 1e-12 if case['table_unit'] == 'au' else 1e-9
+    rtol = 1e-12 if case['table_unit'] == 'au' and ru == 'au' else 1e-9
     nontrivial = False
     for j, req in enumerate(reqs):
         if req not in aps and nap >= 2:
